@@ -396,7 +396,8 @@ def corner_scenarios(draw):
     hunt/C11, coordinates and counts generated): every case is noise-free and compared under reflection."""
     src = S.DrawSrc(draw)
     kind = src.choice(["event_order", "micro_intron_blocks", "threaded_ends", "adjacent_cluster", "corner_start",
-                       "similar_novel", "monoexon_overlap", "ragged_polya", "flanking_introns", "readthrough_tip"])
+                       "similar_novel", "monoexon_overlap", "ragged_polya", "flanking_introns", "readthrough_tip",
+                       "intronic_tail_fragment", "intronic_tail_fragment"])
     extra_opts = []
     force_dt = None
     if os.environ.get("VERIF_C11_KIND"):
@@ -538,6 +539,22 @@ def corner_scenarios(draw):
         add([X[0], [X[1][0], X[1][1] + 50], [Y[0][0] + src.choice([0, 50]), Y[0][1]], Y[1], Y[2]], 1, tail=False,
             prefix="t")
         force_dt = "pacbio_ccs"
+    elif kind == "intronic_tail_fragment":
+        # full-length tailed reads of a spliced transcript and unspliced tailed reads that end at its polyA site and
+        # begin inside its last intron (intron retention / an unspliced transcript of its own)
+        T = chain([src.int(180, 260), src.int(150, 220), src.int(300, 420)], [src.int(500, 800), src.int(500, 800)],
+                  base)
+        trs = [{"id": "T", "exons": T}]
+        add(T, src.int(6, 10), prefix="f")
+        if strand == "+":
+            frag = [[T[-1][0] - src.int(40, 400), T[-1][1]]]
+        else:
+            frag = [[T[0][0], T[0][1] + src.int(40, 400)]]
+        add(frag, src.int(4, 7), prefix="u")
+        if src.bool(0.5):
+            trs = [{"id": "T", "exons": [T[0], [T[1][0], T[1][1] + src.int(300, 500)]]}]     # T itself is novel
+            novel.append(T)
+        extra_opts = ["--report_novel_unspliced", "true"]
     elif kind == "monoexon_overlap":
         # overlapping unspliced transcripts on opposite strands (polyA tails vs polyT heads), unequal support
         T = chain([src.int(180, 240)] * 3, [src.int(280, 400)] * 2, base)
@@ -669,5 +686,5 @@ def stages(tier):
     q = tier == "quick"
     return [Stage("equivariance", "hyp", evaluate, n=160 if q else 3000, strategy=scenarios),
             Stage("split_shift", "hyp", evaluate_split, n=32 if q else 500, strategy=split_scenarios),
-            Stage("corners", "hyp", evaluate_corner, n=80 if q else 1500, strategy=corner_scenarios),
+            Stage("corners", "hyp", evaluate_corner, n=112 if q else 2000, strategy=corner_scenarios),
             Stage("contig_start", "hyp", evaluate_corner, n=32 if q else 600, strategy=contig_start_scenarios)]
